@@ -54,6 +54,9 @@ def engine_b(pid, spec, tier, work, agg, repo, jobs):
             else: agg['notes'].append('ThreadSanitizer replay driver does not build: ' + r.stdout[-400:])
         names = ms.get('select', {}).get(tier)
         sel = [i for i, c in enumerate(hm.CHECKS) if names is None or c.__name__ in names] if not ms.get('checks') else ms['checks']
+        if os.environ.get('VERIF_ONLY_HARNESS'):   # development aid (evidence then goes to _work/)
+            import re as _re
+            sel = [i for i in sel if _re.search(os.environ['VERIF_ONLY_HARNESS'], hm.CHECKS[i].__name__)]
         for i in sel:
             jobsl.append((ms['module'], i, ll, so, os.path.join(work, 'b_%s_%d.json' % (ms['module'], i)), params))
     with cf.ThreadPoolExecutor(jobs) as ex:
